@@ -84,12 +84,13 @@ func genPhaseB() (string, string) {
 	if len(fields) == 0 {
 		refuse("phaseb: struct VP8Encoder not found")
 	}
+	refusedBefore := len(refused) // other passes' refusals do not concern this one
 	for _, need := range []string{"encodeRow", "recordAllTokens", "refreshProbas"} {
 		if methods[need] == nil {
 			refuse("phaseb: method (*VP8Encoder).%s not found", need)
 		}
 	}
-	if len(refused) > 0 {
+	if len(refused) > refusedBefore {
 		return "PhaseB.v", "(* not generated *)\n"
 	}
 
